@@ -43,6 +43,11 @@ func TestMain(m *testing.M) {
 	if d := os.Getenv("VERIF_C10_RESTART"); d != "" {
 		vfC10Restart(d)
 	}
+	if d := os.Getenv("VERIF_C10_CLEANUP"); d != "" {
+		// the start-up clean-up alone, on the main thread (so that strace can kill it at its k-th unlink)
+		deleteTempFiles(d)
+		os.Exit(0)
+	}
 	os.Exit(m.Run())
 }
 
@@ -737,6 +742,47 @@ func vfC10Variants(c vfC10Case, kdir, kout string, withBacklog bool) string {
 		}
 	}
 	os.RemoveAll(a)
+	// (c) the clock was set back between the kill and the restart (a Pi has no battery-backed clock): the debris
+	// carries modification times half an hour ahead of now
+	f := filepath.Join(kdir, "variant-future-mtime")
+	if err := vfCopyDir(kout, f); err == nil {
+		ahead := time.Now().Add(30 * time.Minute)
+		filepath.Walk(f, func(p string, info os.FileInfo, err error) error {
+			if err == nil && !info.IsDir() {
+				os.Chtimes(p, ahead, ahead)
+			}
+			return nil
+		})
+		if err := deleteTempFiles(f); err != nil {
+			return fmt.Sprintf("crash state whose files carry modification times in the future: deleteTempFiles failed: %v", err)
+		}
+		if msg := check(f, 0, "crash state whose files carry modification times in the future (clock set back before the restart)"); msg != "" {
+			return msg
+		}
+		os.RemoveAll(f)
+	}
+	// (d) the restarted daemon is itself killed inside its clean-up, on entering its k-th unlink, and started
+	// again: whatever the first clean-up left must still be recognisable as debris by the next one
+	if withBacklog && vfHaveStrace() {
+		for k := 1; k <= 4; k++ {
+			g := filepath.Join(kdir, fmt.Sprintf("variant-killed-cleanup-%d", k))
+			if err := vfCopyDir(kout, g); err != nil {
+				break
+			}
+			cmd := exec.Command("strace", "-f", "-o", filepath.Join(kdir, "strace-cleanup.log"), "-e", "trace=unlink,unlinkat",
+				"-e", fmt.Sprintf("inject=unlink,unlinkat:signal=SIGKILL:when=%d", k), os.Args[0], "-test.run", "^$")
+			cmd.Env = append(os.Environ(), "VERIF_C10_CLEANUP="+g, "VERIF_C10_CHILD=", "VERIF_C10_RESTART=", "GOMAXPROCS=2")
+			cmd.Dir = kdir
+			cmd.CombinedOutput()
+			if err := deleteTempFiles(g); err != nil {
+				return fmt.Sprintf("clean-up killed on entering its unlink #%d, then run again: deleteTempFiles failed: %v", k, err)
+			}
+			if msg := check(g, 0, fmt.Sprintf("clean-up killed on entering its unlink #%d, then run again", k)); msg != "" {
+				return msg
+			}
+			os.RemoveAll(g)
+		}
+	}
 	if !withBacklog {
 		return ""
 	}
@@ -831,6 +877,12 @@ func vfGenC10(t *rapid.T) vfC10Case {
 
 func TestVF_C10(t *testing.T) {
 	kit.Drive(t, "C10", "TestVF_C10",
-		"generated: small Lepton/Boson streams (8x6..14x10, up to ~90 frames) with 1-3 motion recordings, optionally bad frames, 'clear' markers, a test recording and the continuous recorder, into output directories that are plain, named with the recorder's own extensions or glob metacharacters ('rec.temp', 'usb[1]/cptv', 'a*b?c', ...) or symbolic links (the directory itself / its constant-recordings sub-directory), one stream in 6 with a backlog of up to 2600 finished recordings already there, one in 6 with an undeletable entry that matches the temporary-file pattern (the clean-up may then refuse with an error, but may not report success and leave debris); in addition every crash state with debris is re-checked on copies of the directory with such undeletable entries planted and (for up to 6 states per stream) behind 2600 finished recordings; each stream is first run to completion in a child process under strace to number the file-system system calls (openat, write, close, lseek, rename*, unlink*, mkdir*) of the thread that runs handleConn; then the child is re-run and killed with SIGKILL on entering the k-th such call, for every k (thorough) or a stratified sample of ~40 points (quick: all points within 6 calls of every open/rename/unlink of a recording plus an even sample of the rest). Oracle on the surviving directory: every *.cptv decodes from header to exactly NumFrames frames and equals, frame for frame, the corresponding complete recording of the uncrashed run (a kill at a call boundary leaves exactly what a concurrent observer could see at that instant); for the first five crash states with debris of every stream the daemon itself is started again (the real runMain, on a private D-Bus message bus, until it listens for the camera) and the output directory must then hold nothing but those complete recordings; for all states the same is required after the real deleteTempFiles. Non-trivial: a stream with at least one crash point at which a recording was in progress (temporary artefacts present). Evaluations count the individual kills (plus one per stream); non-trivial ones are the kills at which a recording was in progress, distinct by (stream, crash point).",
+		"generated: small Lepton/Boson streams (8x6..14x10, up to ~90 frames) with 1-3 motion recordings, optionally bad frames, 'clear' markers, a test recording and the continuous recorder, into output directories that are plain, named with the recorder's own extensions or glob metacharacters ('rec.temp', 'usb[1]/cptv', 'a*b?c', ...) or symbolic links (the directory itself / its constant-recordings sub-directory), one stream in 6 with a backlog of up to 2600 finished recordings already there, one in 6 with an undeletable entry that matches the temporary-file pattern (the clean-up may then refuse with an error, but may not report success and leave debris); in addition every crash state with debris is re-checked on copies of the directory with such undeletable entries planted and (for up to 6 states per stream) behind 2600 finished recordings, with modification times half an hour in the future (a clock set back before the restart), and - for those 6 - with the clean-up itself killed on entering each of its first four unlink calls and then run again; each stream is first run to completion in a child process under strace to number the file-system system calls (openat, write, close, lseek, rename*, unlink*, mkdir*) of the thread that runs handleConn; then the child is re-run and killed with SIGKILL on entering the k-th such call, for every k (thorough) or a stratified sample of ~40 points (quick: all points within 6 calls of every open/rename/unlink of a recording plus an even sample of the rest). Oracle on the surviving directory: every *.cptv decodes from header to exactly NumFrames frames and equals, frame for frame, the corresponding complete recording of the uncrashed run (a kill at a call boundary leaves exactly what a concurrent observer could see at that instant); for the first five crash states with debris of every stream the daemon itself is started again (the real runMain, on a private D-Bus message bus, until it listens for the camera) and the output directory must then hold nothing but those complete recordings; for all states the same is required after the real deleteTempFiles. Non-trivial: a stream with at least one crash point at which a recording was in progress (temporary artefacts present). Evaluations count the individual kills (plus one per stream); non-trivial ones are the kills at which a recording was in progress, distinct by (stream, crash point).",
 		vfGenC10, vfRunC10)
+}
+
+
+func vfHaveStrace() bool {
+	_, err := exec.LookPath("strace")
+	return err == nil
 }
